@@ -11,6 +11,7 @@ import (
 	"net/http/httptest"
 	"strconv"
 	"strings"
+	"unicode/utf8"
 
 	connect "github.com/bufbuild/connect-go"
 	"google.golang.org/protobuf/types/known/wrapperspb"
@@ -329,7 +330,7 @@ func reqOracle(c *Ctx, op string, a map[string]string, flat []byte, got [][]byte
 		if bad == "" && len(decoded) > 0 && decoded[0] == 0xEE {
 			bad = "undecodable"
 		}
-		if bad == "special" && kind != "unary" && kind != "server" && runs > 0 {
+		if bad == "special" && kind != "unary" && kind != "server" && runs > 0 && !(max > 0 && size > max) {
 			special := int(flags) &^ 1
 			defined := (proto == "connect" && special&2 != 0) || (proto == "grpcweb" && special&0x80 != 0)
 			if !defined && flags&1 == 0 && !strings.HasSuffix(ans, "end=13") {
@@ -555,6 +556,41 @@ func nilConstructorProbe(c *Ctx) {
 // offending bytes, so the *error text* is not valid UTF-8 either - which must not cost the error
 // its code or the response its shape.)
 func invalidUTF8PayloadProbe(c *Ctx) {
+	// the model's utf8.Valid / strings.ToValidUTF8 against Go's, on the byte strings that matter
+	// here: well-formed runes of every length, every kind of ill-formed sequence, runs of them
+	u8 := func(b []byte) {
+		op := "u8 " + hx(b)
+		c.Begin(op)
+		v := 0
+		if utf8.Valid(b) {
+			v = 1
+		}
+		c.Emit(op, fmt.Sprintf("valid=%d fixed=%s", v, hx([]byte(strings.ToValidUTF8(string(b), "\uFFFD")))), true)
+	}
+	pieces := [][]byte{{'a'}, {0x7f}, {0xc2, 0x80}, {0xdf, 0xbf}, {0xe0, 0xa0, 0x80}, {0xed, 0x9f, 0xbf}, {0xee, 0x80, 0x80}, {0xef, 0xbf, 0xbd}, {0xf0, 0x90, 0x80, 0x80}, {0xf4, 0x8f, 0xbf, 0xbf},
+		{0x80}, {0xbf}, {0xc0, 0x80}, {0xc1, 0xbf}, {0xc2}, {0xe0, 0x9f, 0xbf}, {0xe0, 0xa0}, {0xed, 0xa0, 0x80}, {0xf0, 0x8f, 0xbf, 0xbf}, {0xf0, 0x90, 0x80}, {0xf4, 0x90, 0x80, 0x80}, {0xf5, 0x80, 0x80, 0x80}, {0xff}, {0xfe}}
+	u8(nil)
+	for _, p := range pieces {
+		u8(p)
+		for _, q := range pieces {
+			u8(append(append([]byte{}, p...), q...))
+		}
+	}
+	nr := 300
+	if c.Thorough() {
+		nr = 20000
+	}
+	for i := 0; i < nr; i++ {
+		var b []byte
+		for k := c.Rng.Intn(6); k >= 0; k-- {
+			if c.Rng.Chance(70) {
+				b = append(b, pieces[c.Rng.Intn(len(pieces))]...)
+			} else {
+				b = append(b, c.Rng.Bytes(1+c.Rng.Intn(3))...)
+			}
+		}
+		u8(b)
+	}
 	for _, proto := range []string{"connect", "grpc", "grpcweb"} {
 		for _, kind := range []string{"unary", "client"} {
 			for _, payload := range []string{"\xff", "{\"value\":\"\xff\xfe\"}", "{\"value\":\xff}"} {
@@ -600,13 +636,49 @@ func invalidUTF8PayloadProbe(c *Ctx) {
 	}
 }
 
+// declaredLengthProbe: Content-Length is what the peer *says*. A unary Connect request that
+// declares an absurd length and sends two bytes is served (or refused) like any other two-byte
+// request - the declaration sizes nothing (round 9, C07-ml).
+func declaredLengthProbe(c *Ctx) {
+	for _, declared := range []int64{1 << 62, 1<<63 - 1} {
+		for _, max := range []int{0, 1 << 20} {
+			runs := 0
+			h := connect.NewUnaryHandler("/s/m", func(ctx context.Context, r *connect.Request[[]byte]) (*connect.Response[[]byte], error) {
+				runs++
+				return connect.NewResponse(&[]byte{1}), nil
+			}, connect.WithCodec(rawCodec{"raw"}), connect.WithReadMaxBytes(max))
+			desc := fmt.Sprintf("unary Connect request declaring Content-Length %d with a 2-byte body, handler read limit %d", declared, max)
+			c.Begin(desc)
+			c.Count("declared-length-probe")
+			got := safely(func() string {
+				req := httptest.NewRequest(http.MethodPost, "/s/m", strings.NewReader("ab"))
+				req.ContentLength = declared
+				req.Header.Set("Content-Length", strconv.FormatInt(declared, 10))
+				req.Header.Set("Content-Type", "application/raw")
+				rec := httptest.NewRecorder()
+				h.ServeHTTP(rec, req)
+				code, note := responseErrorCode("connect", "unary", rec)
+				return fmt.Sprintf("runs=%d code=%d malformed=%q", runs, code, strings.TrimSpace(note))
+			})
+			if got != "runs=1 code=0 malformed=\"\"" {
+				c.Fail("req-declared-length", desc, got, "the request is served from the bytes that arrive, without panicking: runs=1 code=0")
+			}
+		}
+	}
+}
+
 func streamReq(c *Ctx) {
+	if strings.HasPrefix(replayOp, "u8 ") {
+		invalidUTF8PayloadProbe(c) // the u8 operations are emitted there
+		return
+	}
 	if replayOp != "" {
 		hreqOp(c, replayOp)
 		return
 	}
 	sealedProbe(c)
 	nilConstructorProbe(c)
+	declaredLengthProbe(c)
 	invalidUTF8PayloadProbe(c)
 	r := c.Rng
 	protos := []string{"connect", "grpc", "grpcweb"}
@@ -629,6 +701,16 @@ func streamReq(c *Ctx) {
 					for _, sent := range []string{"", "rle"} {
 						hreqOp(c, fmt.Sprintf("hreq proto=%s kind=%s max=0 sent=%s tmo=- flat=%s tail=eof seg=-", proto, kind, hx([]byte(sent)), hx(frame(fl, nil))))
 						hreqOp(c, fmt.Sprintf("hreq proto=%s kind=%s max=0 sent=%s tmo=- flat=%s tail=eof seg=-", proto, kind, hx([]byte(sent)), hx(append(frame(0, []byte{1}), append(frame(fl, nil), frame(0, []byte{2})...)...))))
+					}
+				}
+			}
+			// envelopes with protocol-specific flags are subject to the read limit like any other:
+			// a peer cannot make the receiver buffer what it would not accept as a message
+			if !(proto == "connect" && kind == "unary") {
+				for _, fl := range []byte{2, 0x80, 3, 0x81, 4, 0x40} {
+					for _, n := range []int{9, 200} {
+						flat := append(frame(0, []byte{1}), frame(fl, bytes.Repeat([]byte{'x'}, n))...)
+						hreqOp(c, fmt.Sprintf("hreq proto=%s kind=%s max=8 sent=- tmo=- flat=%s tail=eof seg=-", proto, kind, hx(flat)))
 					}
 				}
 			}
